@@ -1,12 +1,14 @@
 import Infretis.Model.StoreText
 import Infretis.Lemmas.CodecFixed
+import Infretis.Lemmas.StoreWs
 import Infretis.Lemmas.StorePath
 /-!
 Helper lemmas for C14 at the text level (`Infretis/Model/StoreText.lean`): rounding, padding and
 splitting, `int()` / `float()` on what the formatters write, the block reader on a stored file.
 -/
 namespace Infretis.StoreText
-open Infretis.Codec hiding Err Line Text
+-- white space: the definitions and lemmas of Model/StoreWs.lean + Lemmas/StoreWs.lean (Python's complete set), not Codec's
+open Infretis.Codec hiding Err Line Text isWs lstrip rstrip strip splitWs NoWs fmtCore_noWs dropWhile_noWs NoBrk_of_noWs splitWs_ws splitWs_blanks splitWs_allWs splitWs_token splitWs_append_ws rstrip_decomp splitWs_rstrip splitWs_lstrip splitWs_strip head_blank head_nil mem_rstrip
 open Infretis.Store (PathObj Fill fill idx0)
 
 /-! ### `'{:.6f}'`: the rounding rule -/
@@ -53,11 +55,15 @@ theorem round6_exact_iff (n d : Nat) (hd : 0 < d) : round6 n d * d = n * 1000000
 
 /-! ### tokens, padding, splitting -/
 
-/-- a token: non-empty and free of whitespace -/
+/-- a token: non-empty and free of white space — of EVERY character `str.split()` separates at
+    (`isWs` of Model/StoreWs.lean: the ten ASCII ones, U+0085, U+00A0, U+1680, U+2000–200A, U+2028,
+    U+2029, U+202F, U+205F, U+3000).  [Before the audit of 2026-09-29 `NoWs` was `Infretis.Codec.NoWs`
+    (ASCII white space only): with that guard the text-level round trip was FALSE of the real code
+    for a name such as "a\u00a0b.xyz" — see `C14.roundtrip_text_nbsp_in_name_counterexample`.] -/
 def Tokn (t : Str) : Prop := t ≠ [] ∧ NoWs t
 
 theorem tokn_natDigits (n : Nat) : Tokn (natDigits n) :=
-  ⟨natDigits_ne_nil n, fun c hc => (numChars_props c (by simp [numChars, natDigits_mem n c hc])).1⟩
+  ⟨natDigits_ne_nil n, fun c hc => numChars_noWs c (by simp [numChars, natDigits_mem n c hc])⟩
 
 theorem tokn_intDigits (z : Int) : Tokn (intDigits z) := by
   unfold intDigits
@@ -73,11 +79,13 @@ theorem tokn_intDigits (z : Int) : Tokn (intDigits z) := by
 def tokF : FVal → Str
   | .dec d => fmtCore 6 d
   | .nan => nanStr
+  | .inf neg => if neg then ninfStr else infStr
 
 theorem tokn_tokF (v : FVal) : Tokn (tokF v) := by
   cases v with
   | dec d => exact ⟨fmtCore_ne_nil 6 d, fmtCore_noWs 6 d⟩
   | nan => exact ⟨by decide, by unfold NoWs; decide⟩
+  | inf neg => cases neg <;> exact ⟨by decide, by unfold NoWs; decide⟩
 
 theorem fmtF_eq (w : Nat) (x : FIn) : fmtF w x = padL w (tokF (written x)) := by
   unfold fmtF
@@ -220,12 +228,21 @@ theorem fmtCore_ne_nanStr (d : Dec) : fmtCore 6 d ≠ nanStr := by
   revert this
   decide
 
+theorem fmtCore_ne_infStr (d : Dec) : fmtCore 6 d ≠ infStr ∧ fmtCore 6 d ≠ ninfStr := by
+  constructor <;>
+  · intro h
+    have : 'n' ∈ fmtCore 6 d := by rw [h]; decide
+    have := fmtCore_mem 6 d 'n' this
+    revert this
+    decide
+
 theorem pyFloat_tokF (v : FVal) : pyFloat (tokF v) = some v := by
   cases v with
   | dec d =>
     unfold pyFloat tokF
-    simp only [fmtCore_ne_nanStr d, if_false, parseCore_fmtCore]
+    simp only [fmtCore_ne_nanStr d, (fmtCore_ne_infStr d).1, (fmtCore_ne_infStr d).2, if_false, parseCore_fmtCore]
   | nan => rfl
+  | inf neg => cases neg <;> rfl
 
 theorem mapOpt_pyFloat : ∀ (vs : List FVal), mapOpt pyFloat (vs.map tokF) = some vs := by
   intro vs
